@@ -461,6 +461,7 @@ pub trait Api: Send + Sync {
     fn max_cost(&self) -> i64;
     fn snapshot(&self, keys: &[u64]) -> stretto::verif::Snapshot<Val>;
     fn metrics(&self) -> Option<MetricsSnap>;
+    fn metrics_reset(&self);
     fn clone_box(&self) -> Box<dyn Api>;
     /// (index, conflict) the cache's key builder assigns; `borrowed` asks through the borrowed form
     fn key_hash(&self, k: u64, borrowed: bool) -> (u64, u64);
@@ -543,6 +544,9 @@ macro_rules! snapshot_impl {
         }
         fn metrics(&self) -> Option<MetricsSnap> {
             metrics_of(&self.metrics)
+        }
+        fn metrics_reset(&self) {
+            self.metrics.clear()
         }
         fn update_max_cost(&self, v: i64) {
             SelfTy::update_max_cost(self, v)
@@ -885,6 +889,9 @@ macro_rules! typed_api {
             fn metrics(&self) -> Option<MetricsSnap> {
                 metrics_of(&self.0.metrics)
             }
+            fn metrics_reset(&self) {
+                self.0.metrics.clear()
+            }
             fn clone_box(&self) -> Box<dyn Api> {
                 Box::new($name(self.0.clone()))
             }
@@ -1034,7 +1041,7 @@ pub fn build(cfg: &Cfg) -> Result<Box<dyn Api>, String> {
             // bit 2 of the recipe: start from `Cache::builder(..)` instead of `CacheBuilder::new(..)`
             let via_cache = cfg.recipe & 4 != 0;
             let d = cfg.use_defaults;
-            let ms = Duration::from_millis(cfg.cleanup_ms);
+            let ms = if cfg.cleanup_ns > 0 { Duration::from_nanos(cfg.cleanup_ns) } else { Duration::from_millis(cfg.cleanup_ms) };
             match cfg.recipe % 4 {
                 0 => {
                     let mut b = $B::<u64, Val, HKb>::new_with_key_builder(cfg.num_counters, cfg.max_cost, kb);
@@ -1275,6 +1282,10 @@ pub fn do_op(api: &dyn Api, client: usize, idx: usize, op: &Op) {
             }
             Res::Num(hits)
         }
+        Op::MetricsReset => {
+            api.metrics_reset();
+            Res::Unit
+        }
         Op::StallWorker { ns, skip } => {
             rt::stall_task_later("processor", *ns, *skip);
             Res::Unit
@@ -1449,7 +1460,9 @@ pub fn run_plan(plan: &Plan) {
     }
     let sh = shared.clone();
     rt::block("controller.join", &move || sh.finished.load(Ordering::SeqCst) >= n);
-    if plan.has_tag("drop_busy") {
+    if plan.has_tag("no_quiesce") {
+        // (a timer that is always due: the processor never idles)
+    } else if plan.has_tag("drop_busy") {
         // no quiescence: whatever is buffered now is still buffered when the handles go
         let snap = snap_of_q(api.as_ref(), &plan.universe, &kb, false);
         log(EvKind::Checkpoint { id: cp, snap, quiescent: false });
@@ -1459,7 +1472,7 @@ pub fn run_plan(plan: &Plan) {
     if matches!(plan.cfg.keys, KeyMode::Typed { .. }) {
         rt::atomic(|| log_keymap(api.as_ref(), &plan.universe));
     }
-    if !plan.has_tag("drop_busy") {
+    if !plan.has_tag("drop_busy") && !plan.has_tag("no_quiesce") {
         let snap = snap_of(api.as_ref(), &plan.universe, &kb);
         log(EvKind::Checkpoint { id: cp, snap, quiescent: true });
         cp += 1;
@@ -1494,10 +1507,12 @@ pub fn run_plan(plan: &Plan) {
         do_op(api.as_ref(), 98, 3, &Op::Remove { k });
         do_op(api.as_ref(), 98, 4, &Op::Wait);
         do_op(api.as_ref(), 98, 5, &Op::Get { k, hold: 0 });
-        rt::quiesce();
-        let snap = snap_of(api.as_ref(), &plan.universe, &kb);
-        log(EvKind::Checkpoint { id: cp, snap, quiescent: true });
-        cp += 1;
+        if !plan.has_tag("no_quiesce") {
+            rt::quiesce();
+            let snap = snap_of(api.as_ref(), &plan.universe, &kb);
+            log(EvKind::Checkpoint { id: cp, snap, quiescent: true });
+            cp += 1;
+        }
     }
     *MAIN_API.lock().unwrap_or_else(|e| e.into_inner()) = None;
     match plan.finale {
